@@ -175,7 +175,7 @@ PolaritiesComplement ==
             neg == TagCond(tag, fin[tag], FALSE)
         IN \A r \in FlatRows : Eval(neg, r) = ~Eval(pos, r)
 
-(* a value list without mapped entries does not select by the integer column at all *)
+(* shape of the state, incl. the precondition Covered kept by Add / SetRe *)
 TypeOK ==
   /\ kind \in [Tags -> Kinds]
   /\ \A tag \in Tags : Len(fin[tag].vals) <= MaxVals /\ Len(fnot[tag].vals) <= MaxVals
